@@ -878,3 +878,39 @@ fn c18_drop_at_map_lock_with_reply_in_hand() {
     c18_survivor_completes(&requests, &rx);
     std::mem::forget((requests, rx));
 }
+
+/// C05 (progress across a lock hand-over): the waiter for request 1 finds the receive lock
+/// held by another waiter; while it waits, that other waiter reads request 1's reply off the
+/// transport, parks it and releases the lock.  Nothing else will ever arrive.  The waiter must
+/// then complete with its parked reply (it must look at its slot *after* it obtained the
+/// receive lock, not only before).
+#[kani::proof]
+#[kani::unwind(8)]
+#[kani::stub(std::str::from_utf8, from_utf8_trusting)]
+fn c05_recv_after_lock_handover() {
+    tape::set_tables(&SESSION_NAMES, &SESSION_TEXTS, &SESSION_ATTRS);
+    tape::register(2, reply_tape(0));
+    let requests = map_from(entry_for(1, 1, 2), entry_for(1, 2, 3));
+    let rx = Arc::new(Mutex::new(MemRx { slots: [0, 1], n: 0, pos: 0, taken: 0 }));
+    let mut fut = Box::pin(Session::<MemTransport>::recv::<Get>(vr::message_id(1), requests.clone(), rx.clone()));
+    {
+        // the other waiter is the reader
+        let other = rx.try_lock().unwrap();
+        assert!(tokio::model::poll_once(fut.as_mut()).is_pending());
+        // ... it reads and parks the reply to request 1 ...
+        {
+            let mut m = requests.try_lock().unwrap();
+            *m.get_mut(&vr::message_id(1)).unwrap() = OutstandingRequest::Ready(vr::partial_reply(1, 2));
+        }
+        // ... and hands the lock over
+        drop(other);
+    }
+    let r = tokio::model::run_bounded(fut, 2);
+    match &r {
+        Some(Ok(data)) => assert!(&**data == "d1", "C05: wrong reply after lock hand-over"),
+        Some(Err(_)) => assert!(false, "C05: error although the own reply is parked"),
+        None => assert!(false, "C05: waiter left waiting forever although its reply was parked while it waited for the receive lock"),
+    }
+    kani::cover!(matches!(r, Some(Ok(_))), "completes with the parked reply");
+    std::mem::forget((r, requests, rx));
+}
